@@ -18,22 +18,24 @@ LEVEL_TEXT = (
     "English one, by `decide`); int_of_spelling / abbr_of_spelling / long_of_spelling (every spelling of month m - int, "
     "any digit string that int() reads as m incl. leading zeros and non-ASCII decimals, any string whose str.lower() is the "
     "abbreviation or the lower-cased full name - gives m / the abbreviation / the full name); compose (X(Y v) = X v for all "
-    "9 ordered pairs and EVERY value v); non_month_unchanged; never_raises; entry_frame (only the value of the last "
+    "9 ordered pairs and EVERY value v); non_month_unchanged; never_raises / never_raises_library (NO value whatsoever makes a "
+    "middleware raise - without any side condition); huge_int_ok (an int too long for str() is left unchanged and the message "
+    "carries the placeholder text); entry_frame (only the value of the last "
     "'month' field and one metadata key change). Quantified over every value and every Unicode behaviour P satisfying "
     "MonthOK; the model is tied to month.py by differential execution on every run.")
 LEVEL_NOTE = (
     "Trusted: Lean kernel + 3 standard axioms; the hand-written model lean/BibVerif/Month.lean (+ MwCommon.lean for "
     "BlockMiddleware.transform / Library(blocks)); the correspondence run; MonthOK (ASCII lower/isdigit, digit characters "
-    "are caseless) checked over all 1,114,112 code points each run; int()/f-string digit limit modelled as "
-    "'more than D characters' / '|i| >= 10^D' and probed at the boundary each run. bool values are outside the model. "
-    "never_raises carries the hypothesis that int-typed field values have at most D decimal digits: an int value with more "
-    "digits makes the Abbreviation/LongString middlewares raise ValueError in their f-string (theorem never_raises_cx).")
+    "are caseless) checked over all 1,114,112 code points each run; the int() digit limit is modelled as "
+    "'more than D characters' and probed at the boundary each run. bool values are outside the model. "
+    "The printing limit of str(int) is modelled as '|i| >= 10^D gives the placeholder text' and probed at the boundary each run.")
 TECHNIQUE = ("Lean 4 proof over an executable model (case analysis on the 12-row table, generic in the Unicode parameter); "
              "regenerated constants; differential correspondence model vs month.py through Middleware.transform")
-RULE = ("corpus (D9 witnesses: 13, '\\u00b2', 5000 digits, ...); exhaustive: 12 months x {int, decimal strings with 0..3 "
+RULE = ("corpus (D9 witnesses: 13, '\\u00b2', 5000 digits, ...; int month values 10**4300, 10**5000, -10**4300 that made str() raise "
+        "before repo commit d1d53b4, through all three middlewares and all 9 pairs); exhaustive: 12 months x {int, decimal strings with 0..3 "
         "(thorough: 0..6) leading zeros, all 2^n case variants of the abbreviation and of the full name} x {3 single "
         "middlewares + 9 ordered pairs (thorough: + 27 triples)} embedded in 4 library contexts in rotation; non-month values "
-        "(0, 13, negative, huge, enclosed, near-misses, non-ASCII digits, 4300/4301-digit strings, None, float, list) x the "
+        "(0, 13, negative, ints of 4300/4301/5001/6001 digits of either sign, enclosed, near-misses, non-ASCII digits, 4300/4301-digit strings, None, float, list) x the "
         "same 12 stacks x 3 contexts; random strings over month letters/digits/special Unicode, mutated month names, random "
         "code points. Compared: every block of the resulting library with all fields (key, value, type, line) and "
         "parser_metadata. Non-trivial = some block of the result carries parser_metadata (a month field was resolved).")
@@ -42,23 +44,17 @@ ASSUMPTIONS = [
     "MonthOK.asciiLower: str.lower() of an ASCII character is its ASCII lower case (checked this run, 128 code points)",
     "MonthOK.asciiDigit: an ASCII character is a digit character iff it is 0..9 (checked this run)",
     "MonthOK.digitCaseless: str.lower() leaves every character with str.isdigit() unchanged (checked this run over all 1,114,112 code points)",
-    "MonthOK.decBound: the decimal value int(c) of one character is at most 9 (checked this run over all code points)",
     "int(s) of an all-isdigit() string fails exactly when len(s) > sys.get_int_max_str_digits() or some character has no decimal value; "
-    "formatting an int fails exactly when it has more than that many digits (probed at the boundary this run)",
+    "str(i) of an int fails (ValueError) exactly when |i| >= 10**sys.get_int_max_str_digits() (probed at the boundary this run)",
     "str.lower() acts character by character on the strings sent to the model (strings where the final-sigma rule applies go to the real code only)",
     "bool field values are not modelled (sent to the real code only: must not raise)",
 ]
-PARTIAL = [
-    "never_raises is proved for entries whose int-typed field values have at most D = sys.get_int_max_str_digits() decimal digits "
-    "(always true of parsed input, where values are str). The unrestricted clause `never_raises_full` is FALSE of model and code "
-    "alike (never_raises_cx): month = 10**D as an int makes MonthAbbreviationMiddleware / MonthLongStringMiddleware raise ValueError "
-    "while formatting 'unknown month {v}'. Set VERIF_C15_HUGE_INT=1 to put that witness into the corpus.",
-]
+PARTIAL = []
 
 KINDS = ["toInt", "toAbbr", "toLong"]
 EXPECT = [("jan", "January"), ("feb", "February"), ("mar", "March"), ("apr", "April"), ("may", "May"), ("jun", "June"),
           ("jul", "July"), ("aug", "August"), ("sep", "September"), ("oct", "October"), ("nov", "November"), ("dec", "December")]
-MESSAGES = ["month field unchanged", "month-field unchanged - unknown month", "transformed int-month to str-month",
+MESSAGES = ["month field unchanged", "month-field unchanged - unknown month", "<integer with too many digits>", "transformed int-month to str-month",
             "transformed abbreviated month to full month", "transformed month casing", "transformed int-month to abbreviated month",
             "transformed full month to abbreviated month", "use lowercase month abbreviation", "transformed full month to int-month",
             "transformed abbreviated month to int-month", "cast month int-string to int"]
@@ -183,7 +179,7 @@ def spellings(m, zeros):
 
 
 NON_MONTHS = [
-    0, 13, -1, -12, 100, 2 ** 64, {"big": [4299, 0]}, {"big": [4300, -1]},
+    0, 13, -1, -12, 100, 2 ** 64, {"big": [4299, 0]}, {"big": [4300, -1]}, {"big": [4300, 0]}, {"negbig": [4300, 0]}, {"big": [6000, 3]},
     "0", "00", "13", "013", "99", "000", "{jan}", '"jan"', '"1"', "{1}", "jan.", " jan", "jan ", "janu", "sept", "mai", "",
     " ", "1.0", "+1", "-1", "1_2", "1 2", "january ", "ja", "j", "augustus", "Dezember", "jan feb", "1jan", "jan1",
     "²", "1²", "¹²", "①", "Ⅻ", "١٣", "ſep", "juſt", "İan", "MAİ",
@@ -197,7 +193,8 @@ EXOTIC_MONTHS = [
     "٣", "١٢", "１２", "0٣", "\U0001d7d9", "१",
 ]
 PY_ONLY_VALUES = [{"py": "True"}, {"py": "False"}, "\ud800", "jan\udfff", "Σ", "aΣ", "MAΣ"]
-HUGE_INT_WITNESSES = [{"big": [4300, 0]}, {"big": [5000, 0]}]
+# int month values with more digits than str() prints (raised ValueError before repo commit d1d53b4), and the boundary
+HUGE_INT_WITNESSES = [{"big": [4300, 0]}, {"big": [5000, 0]}, {"negbig": [4300, 0]}, {"negbig": [5000, 7]}, {"big": [4300, 12]}]
 
 
 def corpus():
@@ -216,10 +213,11 @@ def corpus():
     for tail in ["12", "012", "7", "13"]:
         for ks in STACKS1 + [["toAbbr", "toInt"]]:
             cases.append({"ks": ks, "lib": [["entry", "a", "k", [["month", z + tail, 1]], 0, None]], "ip": True, "cls": "corpus"})
-    if os.environ.get("VERIF_C15_HUGE_INT") == "1":
-        for v in HUGE_INT_WITNESSES:
-            for ks in STACKS1:
-                cases.append(_case(ks, v, 0, "huge-int"))
+    for v in HUGE_INT_WITNESSES + [{"big": [4300, -1]}, {"negbig": [4300, -1]}]:
+        for ks in STACKS1:
+            cases.append(_case(ks, v, 0, "huge-int"))
+        for ks in STACKS2:
+            cases.append(_case(ks, v, 2, "huge-int", ip=False))
     return cases
 
 
@@ -271,7 +269,7 @@ def gen(tier, rng):
             yield _case(ks, v, n % 4, "exotic-month", ip=(n % 3 != 0))
             n += 1
     for v in NON_MONTHS:
-        heavy = isinstance(v, dict) and ("rep" in v or "big" in v)
+        heavy = isinstance(v, dict) and ("rep" in v or "big" in v or "negbig" in v)
         for ctx in ((0,) if heavy and tier == "quick" else (0, 2, 5) if heavy else (0, 1, 2, 3, 4, 5)):
             for ks in (STACKS1 + STACKS2[:3] if heavy else STACKS1 + STACKS2):
                 yield _case(ks, v, ctx, "non-month", ip=(n % 3 != 0))
@@ -418,15 +416,6 @@ def _show(v):
 
 
 def known_match(finding, case, failure):
-    """a finding with match = {'huge_int': true} covers cases whose month value is an int of more than D digits"""
-    if finding.get("match", {}).get("huge_int") and "raised ValueError" in failure:
-        def has_huge(x):
-            if isinstance(x, dict):
-                return "big" in x and x["big"][0] >= max_digits() > 0
-            if isinstance(x, list):
-                return any(has_huge(y) for y in x)
-            return False
-        return has_huge(case["lib"])
     return False
 
 
@@ -449,17 +438,6 @@ def extra_obligations(tier):
                 bad.append(cp)
     res.append(("MonthOK.digitCaseless: lower() fixes every isdigit() character (all 1114112 code points, %d digit characters)" % ndig,
                 not bad, "offending: %r" % bad[:5]))
-    bad = []
-    for cp in range(0x110000):
-        if 0xD800 <= cp <= 0xDFFF:
-            continue
-        try:
-            if not 0 <= int(chr(cp)) <= 9:
-                bad.append(cp)
-        except ValueError:
-            pass
-    res.append(("MonthOK.decBound: int(c) of a single character is 0..9 whenever it is defined (all code points)", not bad,
-                "offending: %r" % bad[:5]))
     # model assumptions about int() / f-string on digit strings
     d = max_digits()
     okm = True
@@ -475,9 +453,9 @@ def extra_obligations(tier):
             (not fails(lambda: int("0" * d)), "int('0'*D) works"),
             (fails(lambda: int("0" * (d + 1))), "int('0'*(D+1)) raises (leading zeros count)"),
             (not fails(lambda: int("0" * (d - 1) + "7")), "int of D characters works"),
-            (not fails(lambda: "%s" % (10 ** d - 1)), "an int of D digits can be formatted"),
-            (fails(lambda: f"{10 ** d}"), "an int of D+1 digits cannot be formatted"),
-            (fails(lambda: f"{-(10 ** d)}"), "a negative int of D+1 digits cannot be formatted"),
+            (not fails(lambda: str(10 ** d - 1)) and not fails(lambda: str(-(10 ** d - 1))), "str() prints an int of D digits"),
+            (fails(lambda: str(10 ** d)), "str() refuses an int of D+1 digits with ValueError"),
+            (fails(lambda: str(-(10 ** d))), "str() refuses a negative int of D+1 digits with ValueError"),
             (fails(lambda: int("²")) and "²".isdigit(), "superscript two is isdigit() but int() rejects it"),
             (int("٣") == 3 and int("1٣") == 13, "non-ASCII decimals have their positional value"),
         ]
